@@ -24,7 +24,10 @@ from harness.common import Failure, frac, lean_run, rat
 PROP_MODULES = ["ArmiVerif.Props.C10"]
 BUILD_TARGETS = ["ArmiVerif.Model.XsLib"]
 PARTIAL = ("payloads (arrays, strings, dicts) are identities: equality of payloads (numpyHackForEqual) is a parameter "
-           "interned by the harness; file-wide chi (rewrites nuclide chiFlags), higherOrderScatter and "
+           "interned by the harness; FILE-WIDE CHI is outside the Lean model and the theorems (the driver refuses such libraries; "
+           "NuclideXSMetadata._getSkippedKeys' chiFlag side effect is NOT transcribed): it is judged by the oracle alone "
+           "(run_chi: every fissile nuclide keeps a usable chi, chi = source's, write/read round trip, all orders, 0/1/2 "
+           "file-wide-chi libraries) and there success IS order-dependent in the code (known finding); higherOrderScatter and "
            "nOrderProductionMatrix are outside the model (oracle only); neutronVelocity and libraryLabel are "
            "first-one-wins by design and excluded from 'content'; 'rejected merges leave the target unchanged' is proved "
            "only for the cases of merge_failure_atomic_partial / merge_failure_keeps_metadata and REFUTED in general "
@@ -1339,6 +1342,169 @@ def run_reuse(ctx):
             ctx.count("macro request (reuse): " + rq.split(" ")[0])
 
 
+# ----------------------------------------------------------------------------- file-wide chi (oracle side)
+CHI_FIX = {}
+
+
+def chi_fixture(name):
+    """'fwAA' / 'fwAB': ISOAA / ISOAB turned into legitimate FILE-WIDE-chi libraries (chi once in the file header, fissile
+    nuclides with chiFlag = 0), obtained by setting the metadata as the reader would and a write / read round trip.
+    Other names: the plain fixtures."""
+    import copy
+    from harness import common
+    from armi.nuclearDataIO.cccc import isotxs
+    if name not in ("fwAA", "fwAB"):
+        return load_fixture(name)
+    if name not in CHI_FIX:
+        lib = load_fixture("iso" + name[2:])
+        src = next(n for n in lib.nuclides if n.isotxsMetadata["fisFlag"] > 0)
+        chi = np.array(src.micros.chi, dtype=float)
+        if name == "fwAB":
+            chi = np.roll(chi, 1)
+        chi = chi / chi.sum()
+        lib.isotxsMetadata["fileWideChiFlag"] = 1
+        lib.isotxsMetadata["chi"] = chi
+        for n in lib.nuclides:
+            if n.isotxsMetadata["fisFlag"] > 0:
+                n.isotxsMetadata["chiFlag"] = 0
+                n.micros.chi = chi
+        with common.scratch_dir():
+            isotxs.writeBinary(lib, "FW")
+            CHI_FIX[name] = isotxs.readBinary("FW")
+    return copy.deepcopy(CHI_FIX[name])
+
+
+def gen_chi_lib(rng, suffix, bases, ng, filewide):
+    spec = gen_lib(rng, "iso", suffix, bases, ng, 2, "ISO" + suffix)
+    spec["isotxsMetadata"]["data"]["libraryLabel"] = ""
+    chi = [dy(rng, 0, 2) + 0.125 for _ in range(ng)]
+    for k, (_lab, n) in enumerate(spec["nucs"]):
+        n["isotxsMetadata"]["nuclideId"] = "A"
+        n["isotxsMetadata"]["fisFlag"] = 1 if (k == 0 or rng.random() < 0.5) else 0
+        if n["isotxsMetadata"]["fisFlag"]:
+            n["isotxsMetadata"]["chiFlag"] = 0 if filewide else 1
+            n["micros"]["chi"] = chi if filewide else [dy(rng, 0, 2) for _ in range(ng)]
+    if filewide:
+        spec["isotxsMetadata"]["data"]["fileWideChiFlag"] = 1
+        spec["isotxsMetadata"]["data"]["chi"] = chi
+    return spec
+
+
+def has_filewide_chi(lib):
+    return lib.isotxsMetadata["chi"] is not None
+
+
+def chi_state(lib):
+    """label -> (chiFlag, fisFlag, chi array bytes) for the nuclides carrying ISOTXS data"""
+    out = {}
+    for lab in lib.nuclideLabels:
+        n = lib[lab]
+        if n.isotxsMetadata["fisFlag"] is not None:
+            out[str(lab)] = (n.isotxsMetadata["chiFlag"], n.isotxsMetadata["fisFlag"],
+                             None if n.micros.chi is None else np.asarray(n.micros.chi, dtype=float).tobytes())
+    return out
+
+
+def chi_oracle(ctx, make, names, orders, sink, roundtrip):
+    """the file-wide-chi clauses on the real classes, for every given order, starting from an empty target"""
+    from harness import common
+    from armi.nuclearDataIO import xsLibraries
+    from armi.nuclearDataIO.cccc import isotxs
+    src_chi, nfw = {}, 0
+    for nm in names:
+        lib = make(nm)
+        nfw += has_filewide_chi(lib)
+        for lab, st in chi_state(lib).items():
+            src_chi[lab] = st
+    outcomes = {}
+    for order in orders:
+        case = {"chi_libs": [names[i] if isinstance(names[i], str) else names[i] for i in order], "order": list(range(len(order)))}
+        t = xsLibraries.IsotxsLibrary()
+        err = None
+        for i in order:
+            other = make(names[i])
+            before = chi_state(t)
+            try:
+                t.merge(other)
+            except Exception as e:  # noqa
+                err = type(e).__name__
+                if chi_state(t) != before:
+                    sink("rejected-merge-rewrites-chiflags", "a rejected merge leaves the target unchanged", case,
+                         {"error": err}, "chiFlags of the target's nuclides unchanged")
+                break
+        outcomes[order] = (err, None if err else chi_state(t))
+        ctx.count(f"file-wide-chi sequence ({nfw} of {len(names)} libraries with file-wide chi): " + ("accepted" if not err else "rejected " + err))
+        if err:
+            continue
+        st = chi_state(t)
+        if not has_filewide_chi(t):
+            left = [lab for lab, (cf, ff, _c) in st.items() if ff and ff > 0 and cf == 0]
+            if left:
+                sink("merge-filewide-chi-fissile-nuclide-left-without-chi",
+                     "after a merge that drops the file-wide chi every fissile nuclide carries its own chi (chiFlag != 0)", case, left[:6], [])
+        wrong = [lab for lab in st if lab in src_chi and st[lab][2] != src_chi[lab][2]]
+        if wrong or set(st) != set(src_chi):
+            sink("merge-payload-identity", "each nuclide's chi equals its source's", case, wrong[:6], [])
+        if roundtrip:
+            try:
+                with common.scratch_dir():
+                    isotxs.writeBinary(t, "MERGED")
+                    back = isotxs.readBinary("MERGED")
+                bst = chi_state(back)
+                wrong = [lab for lab in src_chi if lab not in bst or bst[lab][2] != src_chi[lab][2]]
+                if wrong:
+                    sink("merge-filewide-chi-lost-on-write-read", "the merged library written and read back gives each nuclide its source's chi",
+                         case, wrong[:6], [])
+            except Exception as e:  # noqa
+                sink("merge-filewide-chi-not-writable-readable", "the merged library can be written and read back", case,
+                     type(e).__name__ + ": " + str(e)[:120], "round trip")
+    oks = {o: v[0] is None for o, v in outcomes.items()}
+    if len(set(oks.values())) > 1:
+        bad = next(o for o in orders if not oks[o])
+        good = next(o for o in orders if oks[o])
+        key = ("merge-order-dependent-filewide-chi-typeerror" if outcomes[bad][0] == "TypeError" and nfw
+               else "merge-success-order-dependent")
+        sink(key, "whether a set of libraries merges does not depend on the order",
+             {"chi_libs": [names[i] for i in bad], "order": list(range(len(bad)))},
+             {"rejected": [str(names[i])[:20] for i in bad], "error": outcomes[bad][0], "accepted": [str(names[i])[:20] for i in good]}, None)
+    states = {}
+    for o, (err, st) in outcomes.items():
+        if not err:
+            states.setdefault(json.dumps(sorted((k, str(v[0]), str(v[1]), hash(v[2])) for k, v in st.items())), o)
+    if len(states) > 1:
+        a, b = list(states.values())[:2]
+        sink("merge-content-order-dependent", "content (chi, chiFlag) of the merged library does not depend on the merge order",
+             {"chi_libs": [names[i] for i in b], "order": list(range(len(b)))}, {"orders": [list(a), list(b)]}, None)
+
+
+def run_chi(ctx):
+    """file-wide chi: outside the Lean model (the driver refuses such libraries); judged by the oracle alone"""
+    rng = ctx.rng
+
+    def sink(key, clause, case, obs, exp):
+        ctx.count("oracle failure: " + key)
+        if ctx.hist["oracle failure: " + key] <= 3:
+            ctx.fail(key, clause, case, observed=obs, expected=exp)
+
+    sets = [["fwAA", "fwAB"], ["fwAA", "isoAB"], ["isoAA", "fwAB"], ["isoAA", "isoAB"], ["fwAA", "fwAB", "pmAA"],
+            ["fwAA", "isoAB", "gamAA"], ["fwAA", "gamAA"], ["fwAA", "fwAB", "gamAB"]]
+    if ctx.thorough:
+        sets += [["fwAA", "fwAB", "gamAA"], ["isoAA", "fwAB", "gamAB"], ["fwAA", "gamAB", "isoAB"], ["fwAA", "fwAB", "pmAB"]]
+    for names in sets:
+        chi_oracle(ctx, chi_fixture, names, list(itertools.permutations(range(len(names)))), sink, roundtrip=True)
+        ctx.case(("chi-fixtures", tuple(names)))
+    for _ in range(ctx.pick(25, 300)):
+        ng = rng.choice([1, 2, 3])
+        k = rng.choice([2, 2, 3])
+        specs = [gen_chi_lib(rng, suf, rng.sample(BASES, rng.randint(1, 3)), ng, rng.random() < 0.55)
+                 for suf in rng.sample(["AA", "AB", "BA", "ZZ"], k)]
+        if rng.random() < 0.3:
+            suf = specs[0]["nucs"][0][0][-2:]
+            specs.append(gen_lib(rng, "gam", suf, [specs[0]["nucs"][0][0][:-2]], ng, 2, suf + ".gamiso"))
+        chi_oracle(ctx, build, specs, list(itertools.permutations(range(len(specs)))), sink, roundtrip=False)
+        ctx.case(("chi-generated", hash(json.dumps(specs, sort_keys=True))))
+
+
 def run(ctx):
     import logging
     logging.disable(logging.CRITICAL)  # runLog.error chatter of the refused calls
@@ -1346,6 +1512,7 @@ def run(ctx):
         run_merge(ctx)
         run_macro(ctx)
         run_reuse(ctx)
+        run_chi(ctx)
     finally:
         logging.disable(logging.NOTSET)
     ctx.rule = ("merge: seeded scenarios of 2-4 libraries (iso/gamiso/pmatrx-like and pre-merged mixes, 1-33 groups, 1-4 nuclides "
@@ -1465,6 +1632,15 @@ def replay(ctx, payload):
             else list(itertools.permutations(range(n)))
         oracle_scenario(ctx, it, coll_attrs(), case["libs"], case.get("tag", "?"), None, orders,
                         lambda k, cl, c, o, e: hits.append({"key": k, "clause": cl, "observed": o, "order": c["order"]}))
+        hit = [h for h in hits if h["key"] == key]
+        return hit[0] if hit else None
+    if isinstance(case, dict) and "chi_libs" in case:
+        hits = []
+        names = case["chi_libs"]
+        fixtures = all(isinstance(x, str) for x in names)
+        orders = list(itertools.permutations(range(len(names)))) if "order-dependent" in key else [tuple(range(len(names)))]
+        chi_oracle(type(ctx)(ctx.prop, "quick", ctx.seed), chi_fixture if fixtures else build, names, orders,
+                   lambda k, cl, c, o, e: hits.append({"key": k, "clause": cl, "observed": o}), roundtrip=fixtures)
         hit = [h for h in hits if h["key"] == key]
         return hit[0] if hit else None
     if isinstance(case, dict) and "blocks" in case:
